@@ -201,10 +201,7 @@ theorem pathMultiple_ok (h2 : 2 ≤ g.total) (t : Int) (s : Osu) (r : Pat × Osu
 theorem pathNRandom_ok (ct : Nat) (t : Int) (p2 p3 p4 : F) (s : Osu) (r : Pat × Osu)
     (h : pathNRandom A g ct t p2 p3 p4 s = .ok r) : PatOk g.total r.1 := by
   unfold pathNRandom at h
-  simp only at h
   obtain ⟨canTwo, _, h3⟩ := bind_ok h
-  generalize noteCount A s _ _ _ _ _ = nc at h3
-  obtain ⟨n, s1⟩ := nc
   exact pathRandomHoldNotes_ok hA g h1 h16 _ _ _ _ h3
 
 theorem pathTiledLoop_ok (endT : Int) :
